@@ -125,6 +125,9 @@ class Ctx:
         self.imprecise: List[str] = []
         self.unfolding: List[Tuple[str, str]] = []  # (class qualname, op)
         self.inlined = 0
+        self.no_inline: set = set()
+        self.steps = 0
+        self.max_steps = 400000
         self.attr_kind_cache: Dict[Tuple[str, str], str] = {}
         self.init_cache: Dict[str, object] = {}
 
@@ -252,6 +255,9 @@ class Frame:
 
     # ---------------------------------------------------------- statements
     def stmt(self, st: ast.stmt, p: Path) -> List[Path]:
+        self.ctx.steps += 1
+        if self.ctx.steps > self.ctx.max_steps:
+            raise AnalysisError(f"interpreter step budget exhausted in {self.fname} (path explosion)")
         if isinstance(st, ast.Return):
             out = []
             for q, t in self.expr(st.value, p) if st.value is not None else [(p, Const(None))]:
@@ -1082,8 +1088,9 @@ class Frame:
             self.ev(p, "call", text=callee.path, target=callee, args=tuple(pos), line=line)
             return [(p, c)]
         if isinstance(callee, Val):
-            self.ev(p, "call", text="<value>", target=callee, args=tuple(pos), line=line)
-            return [(p, Sym("valuecall", (callee, *pos)))]
+            kws = tuple(Sym("kw:" + k, (v,)) for k, v in sorted(kw.items()))
+            self.ev(p, "call", text="<value>", target=callee, args=tuple(pos) + kws, line=line)
+            return [(p, Sym("valuecall", (callee, *pos) + kws))]
         if isinstance(callee, Sym):
             if callee.head == "class":
                 ci = self.repo.classes.get(callee.text)
@@ -1316,6 +1323,11 @@ class Frame:
 
     def call_fn(self, fn: Fn, pos, kw, p: Path, node):
         owner, selfterm, selfattrs, module = fn.owner
+        nm = getattr(fn.node, "name", "<lambda>")
+        if nm in self.ctx.no_inline:
+            kws = tuple(Sym("kw:" + k, (v,)) for k, v in sorted(kw.items()))
+            self.ev(p, "call", text=nm, args=tuple(pos) + kws, line=getattr(node, "lineno", 0))
+            return [(p, Sym("call:" + nm, tuple(pos) + kws))]
         is_method = fn.kind == "method"
         f = fn.node
         if isinstance(f, ast.Lambda):
